@@ -62,6 +62,15 @@ Fixpoint evalp (p : prog) (raw : bytes) : res bool :=
       match evalb c raw with Val true => Val v | Val false => evalp rest raw | Panic => Panic end
   end.
 
+(* a program as one expression: `if c { return true }; rest` is c || rest, `if c { return false }; rest` is !c && rest.
+   The translator inlines multi-statement helper functions through it (evalb (inl p) = evalp p, Proofs/TranslateP.v). *)
+Fixpoint inl (p : prog) : bexp :=
+  match p with
+  | PRet e => e
+  | PIfRet c true rest => BOr c (inl rest)
+  | PIfRet c false rest => BAnd (BNot c) (inl rest)
+  end.
+
 (* ---- static analysis ------------------------------------------------------------------------
    an lb e = Some (t, f, up, dn): for every raw with lb <= len raw, evaluation does not panic;
    when the value is true (false) then t (f) <= len raw; when up (dn) holds, a true (false)
